@@ -1,10 +1,12 @@
 #!/bin/bash
-# Evaluate every delivered mutant under /tmp/wt/<ID>/mutants/* that is not yet stored in /verif/seeded (only for built checks).
+# usage: tools/seedall.sh [BASE=/tmp/wt] [TAG=]   evaluate every delivered mutant under BASE/<ID>/mutants/mN that is not yet
+# stored in /verif/seeded (stored as <ID>-<TAG>mN); only for properties whose check exists.
+base=${1:-/tmp/wt}; tag=${2:-}
 cd /verif
-for d in /tmp/wt/C*/mutants/m*; do
+for d in $base/C*/mutants/m*; do
   [ -f "$d/patch.diff" ] && [ -f "$d/demo.py" ] && [ -f "$d/meta.json" ] || continue
-  id=$(echo $d | sed -E 's|/tmp/wt/(C[0-9]+)/mutants/(m[0-9]+)|\1-\2|')
-  prop=${id%%-*}
+  prop=$(echo $d | sed -E 's|.*/(C[0-9]+)/mutants/(m[0-9]+)|\1|'); mn=$(basename $d)
+  id=$prop-$tag$mn
   [ -d seeded/$id ] && continue
   [ -f pv/props/$(echo $prop | tr A-Z a-z).py ] || { echo "== $id: check for $prop not built yet"; continue; }
   echo "== $id"
@@ -13,7 +15,7 @@ import sys,json
 t=sys.stdin.read()
 try:
     i=t.index('{'); j=t.rindex('}')
-    d=json.loads(t[i:j+1]); print({k:d[k] for k in ('demo_clean','demo_patched','suite_patched','confirmed')}, {p:(v['verdict'],v['first'][:1]) for p,v in d['checks'].items()})
+    d=json.loads(t[i:j+1]); print({k:d[k] for k in ('demo_clean','demo_patched','suite_patched','confirmed')}, {p:(v['verdict'],v['first'][:2]) for p,v in d['checks'].items()})
 except Exception as e: print(t[-800:])
 "
 done
